@@ -35,10 +35,11 @@ const (
 var phaseNames = []string{"idle", "in-write", "rotation-unlocked", "closing", "closed"}
 
 type c08Result struct {
-	viol  []string
-	obs   map[string]int
-	cells map[string]int
-	sig   string
+	c06viol []string
+	viol    []string
+	obs     map[string]int
+	cells   map[string]int
+	sig     string
 }
 
 func runC08Case(seed int64, idx int, tier string) *c08Result {
@@ -82,11 +83,43 @@ func runC08Case(seed int64, idx int, tier string) *c08Result {
 			time.Sleep(time.Duration(int(uint64(v)>>8)%max) * time.Microsecond)
 		}
 	}
+	// forced windows: with the writer (or Close) held exactly between releasing the mutex and the
+	// broadcast, the non-blocking URL kinds are requested and validated right there
+	windowProbe := func(where string) {
+		for _, id := range h.StreamIDs {
+			rq, st := hx.Get(h.M.Handle, id+"_stream.m3u8", 5*time.Second)
+			if st != hx.Done {
+				// before the first content a plain request parks: not a window to probe
+				continue
+			}
+			vmu.Lock()
+			res.cells["media@window:"+where]++
+			vmu.Unlock()
+			if rq.Resp.Panic != "" {
+				fail("panic/"+panicKey(rq.Resp.Panic), "window probe (%s) of %s panicked: %s", where, id, rq.Resp.Panic)
+				continue
+			}
+			if rq.Resp.Status != 200 {
+				continue
+			}
+			pl := m3u8x.Parse(rq.Resp.Body)
+			for _, v := range oracle.SingleMedia(pl, c.Cfg) {
+				k, m := splitKM(v)
+				fail("snapshot/"+k, "playlist of %s requested %s is not a consistent snapshot: %s", id, where, m)
+			}
+			count("window_probes")
+		}
+	}
+	var probeN atomic.Int32
 	hx.OnKey(key, func(point string, _ any) {
 		switch point {
 		case "rotate.unlocked":
 			phase.Store(phUnlocked)
-			jitter(300)
+			if probeN.Add(1)%3 == 0 {
+				windowProbe("between a rotation's unlock and its broadcast")
+			} else {
+				jitter(300)
+			}
 		case "close.flagged":
 			phase.Store(phClosing)
 			jitter(300)
@@ -96,6 +129,7 @@ func runC08Case(seed int64, idx int, tier string) *c08Result {
 	})
 
 	var stop atomic.Bool
+	var writeCount atomic.Int64
 	var wg sync.WaitGroup
 	type bodyRec struct {
 		hash [32]byte
@@ -193,11 +227,29 @@ func runC08Case(seed int64, idx int, tier string) *c08Result {
 					url = fmt.Sprintf("nothing%d.mp4", rr.Intn(100))
 				}
 				phCall := phase.Load()
-				rq := hx.Start(h.M.Handle, url, func(point string) {
+				var gate chan struct{}
+				if (kind == "part" || kind == "segment") && rr.Intn(4) == 0 {
+					// a slow client: the body is only accepted after the writer has moved on (a few
+					// more writes, or a short while); the bytes must still be the published ones
+					gate = make(chan struct{})
+					w0 := writeCount.Load()
+					need := int64(2 + rr.Intn(40))
+					go func() {
+						for i := 0; i < 200; i++ {
+							if writeCount.Load() >= w0+need || stop.Load() {
+								break
+							}
+							time.Sleep(100 * time.Microsecond)
+						}
+						close(gate)
+					}()
+					count("slow_client_requests")
+				}
+				rq := hx.StartGated(h.M.Handle, url, func(point string) {
 					if point == "serve.lookup" {
 						jitter(200)
 					}
-				})
+				}, gate)
 				st := rq.Wait(1<<30, 30*time.Second)
 				if st != hx.Done {
 					if phase.Load() == phClosed {
@@ -233,6 +285,24 @@ func runC08Case(seed int64, idx int, tier string) *c08Result {
 					}
 					if pl.Media == nil {
 						continue
+					}
+					if kind == "blocking" {
+						// C06 safety clause under free-running schedules: the response must contain
+						// the part that was asked for (roll-over into the next segment allowed)
+						var m, p int
+						if i := strings.Index(url, "_HLS_msn="); i >= 0 {
+							fmt.Sscanf(url[i:], "_HLS_msn=%d&_HLS_part=%d", &m, &p)
+							rs := stateOf(pl.Media)
+							// requests are issued for the open segment of the playlist the reader saw last:
+							// the answer must have reached that part, or have moved past that segment
+							ok := !(m > rs.open || (m == rs.open && p >= rs.parts[m]))
+							vmu.Lock()
+							res.obs["blocking_responses_checked"]++
+							if !ok {
+								res.c06viol = append(res.c06viol, fmt.Sprintf("C06/free-running-premature|request %s was answered with a playlist that lists segments up to %d and %d parts of the open one", url, rs.open-1, rs.parts[rs.open]))
+							}
+							vmu.Unlock()
+						}
 					}
 					count("playlists_validated")
 					if kind == "media" {
@@ -299,6 +369,7 @@ func runC08Case(seed int64, idx int, tier string) *c08Result {
 			}()
 			err = h.DoWrite(i)
 		}()
+		writeCount.Add(1)
 		phase.Store(phIdle)
 		if err != nil {
 			werrs++
